@@ -83,7 +83,8 @@ RECURSIVE AddEnums(_, _, _, _)
 AddEnums(C, T, js, i) ==      \* js: sequence of T node ids
   IF i > Len(js) \/ C.res # "ok" THEN C
   ELSE LET n == T.nodes[js[i]] IN
-       IF n.b = "" THEN AddEnums(C, T, js, i + 1)
+       IF Name1(n) = "" THEN [C EXCEPT !.res = "err", !.err = [cls |-> "noparam", node |-> -n.tok, where |-> "kw"]]
+       ELSE IF n.b = "" THEN [C EXCEPT !.res = "err", !.err = [cls |-> "bodyempty", node |-> -n.tok, where |-> "kw"]]
        ELSE IF Name1(n) \in EnumNames(C) THEN [C EXCEPT !.res = "err", !.err = [cls |-> "dupname", node |-> -n.tok, where |-> "kw"]]
        ELSE AddEnums([C EXCEPT !.enums = Append(@, [name |-> Name1(n), annotation |-> n.a])], T, js, i + 1)
 
@@ -96,7 +97,7 @@ CollectTags(C, X, js, i) ==
        IF Name1(n) = "" THEN CErr(C, "noparam", j, "kw")
        ELSE IF IdxOf(C.tags, Name1(n)) # 0 THEN CErr(C, "dupname", j, "kw")
        ELSE CollectTags([C EXCEPT !.tags = Append(@, [name |-> Name1(n), title |-> IF n.a = "" THEN Name1(n) ELSE n.a,
-                                                       description |-> "", http |-> <<>>, rpc |-> <<>>])], X, js, i + 1)
+                                                       description |-> "", http |-> <<>>, rpc |-> <<>>, auto |-> FALSE])], X, js, i + 1)
 
 \* user types: duplicate names, missing bodies, undefined references (in declaration order)
 TypeDeclNames(X) == {Name1(X.nodes[j]) : j \in {x \in 1..Len(X.nodes) : X.nodes[x].k = "TYPE" /\ X.nodes[x].parent = 0}}
@@ -186,13 +187,15 @@ Dedup(s) == LET F[i \in 0..Len(s)] == IF i = 0 THEN <<>>
             IN F[Len(s)]
 
 \* registers interaction id under its tags; returns [C, names] or an error in C
+\* a Tags directive may name the tags declared by TAG only, not the automatic tag made from a path
+Declared(C, name) == IdxOf(C.tags, name) # 0 /\ ~C.tags[IdxOf(C.tags, name)].auto
 AttachTags(C, X, m, id, proto) ==
   LET td == TagsDirFor(X, m) IN
   IF td # 0
   THEN LET names == Dedup(X.nodes[td].p) IN
        IF X.nodes[td].a # "" THEN [C |-> CErr(C, "annotation", td, "kw"), names |-> <<>>]
        ELSE IF names = <<>> THEN [C |-> CErr(C, "noparam", td, "kw"), names |-> <<>>]
-       ELSE IF \E x \in 1..Len(names) : IdxOf(C.tags, names[x]) = 0 THEN [C |-> CErr(C, "tagnotfound", td, "kw"), names |-> <<>>]
+       ELSE IF \E x \in 1..Len(names) : ~Declared(C, names[x]) THEN [C |-> CErr(C, "tagnotfound", td, "kw"), names |-> <<>>]
        ELSE [C |-> [C EXCEPT !.tags = [t \in 1..Len(C.tags) |->
                         IF \E x \in 1..Len(names) : names[x] = C.tags[t].name
                         THEN IF proto = "http" THEN [C.tags[t] EXCEPT !.http = Append(@, id)] ELSE [C.tags[t] EXCEPT !.rpc = Append(@, id)]
@@ -200,7 +203,7 @@ AttachTags(C, X, m, id, proto) ==
              names |-> names]
   ELSE LET pid == PathIdOf(X, m)  tn == PathTagName(pid)  ix == IdxOf(C.tags, tn)
            C1 == IF ix # 0 THEN C
-                 ELSE [C EXCEPT !.tags = Append(@, [name |-> tn, title |-> PathTagTitle(pid), description |-> "", http |-> <<>>, rpc |-> <<>>])]
+                 ELSE [C EXCEPT !.tags = Append(@, [name |-> tn, title |-> PathTagTitle(pid), description |-> "", http |-> <<>>, rpc |-> <<>>, auto |-> TRUE])]
            ix1 == IdxOf(C1.tags, tn)
        IN [C |-> [C1 EXCEPT !.tags[ix1] = IF proto = "http" THEN [@ EXCEPT !.http = Append(@, id)] ELSE [@ EXCEPT !.rpc = Append(@, id)]],
            names |-> <<tn>>]
@@ -289,8 +292,9 @@ AddNode(C, X, j) ==
               ELSE IF n.p[1] \in C.uniqUrl THEN CErr(C1, "duppath", j, "kw")
               ELSE LET ks == Kids(X, j)
                        rpc(c) == X.nodes[c].k \in {"Protocol", "Method"}
-                       bad == {x \in 2..Len(ks) : rpc(ks[x]) # rpc(ks[1])}
-                   IN IF bad # {} THEN CErr(C1, "mixedurl", ks[CHOOSE x \in bad : \A y \in bad : x <= y], "kw")
+                       ks2 == SelectSeq(ks, LAMBDA c : X.nodes[c].k # "Tags")          \* the Tags of a URL serve both protocols
+                       bad == {x \in 2..Len(ks2) : rpc(ks2[x]) # rpc(ks2[1])}
+                   IN IF bad # {} THEN CErr(C1, "mixedurl", ks2[CHOOSE x \in bad : \A y \in bad : x <= y], "kw")
                       ELSE [C1 EXCEPT !.uniqUrl = @ \cup {n.p[1]}]
     [] n.k \in Methods ->
          IF PathIdOf(X, j) = "" THEN CErr(C, "pathnotfound", j, "kw")
@@ -360,6 +364,7 @@ AddNode(C, X, j) ==
               ELSE IF pk = "RESP" THEN
                    LET r == Len(C.inters[ii].responses) IN
                    IF cr.fault = "typeandnotation" THEN CErr(C, "typeandnotation", j, "kw")
+                   ELSE IF n.a # "" THEN CErr(C, "annotation", j, "kw")       \* the annotation of a response stands on its code line
                    ELSE IF ~cr.has THEN CErr(C, "bodyempty", j, "kw")
                    ELSE IF C.inters[ii].responses[r].body # <<>> THEN CErr(C, "notunique", j, "kw")      \* a second Body of the same response
                    ELSE IF cr.fault # "" THEN CErr(C, cr.fault, j, cr.where)
@@ -400,7 +405,7 @@ AddNode(C, X, j) ==
          LET names == Dedup(n.p) IN
          IF n.a # "" THEN CErr(C, "annotation", j, "kw")
          ELSE IF names = <<>> THEN CErr(C, "noparam", j, "kw")
-         ELSE IF \E x \in 1..Len(names) : IdxOf(C.tags, names[x]) = 0 THEN CErr(C, "tagnotfound", j, "kw")
+         ELSE IF \E x \in 1..Len(names) : ~Declared(C, names[x]) THEN CErr(C, "tagnotfound", j, "kw")
          ELSE C
     [] OTHER -> C       \* Path, ENUM, TAG, MACRO, PASTE: no add function
 
@@ -458,8 +463,11 @@ RunCatalog(T, X) ==
            C4 == CheckTypes(C3, X, RootsOfKind(X, "TYPE"), 1)
            C5 == CollectPaths(C4, X, PathNodes(X), 1, 0)
            C5b == MissedPaths(C5, X, Kids(X, 0), 1)
-           C6 == IF C5b.res = "ok" /\ X.nodes # <<>> /\ X.nodes[Kids(X, 0)[1]].k # "JSIGHT"
-                 THEN CErr(C5b, "jsightfirst", Kids(X, 0)[1], "kw") ELSE C5b
+           C6 == IF C5b.res = "ok" /\ T.nodes # <<>> /\ T.nodes[Kids(T, 0)[1]].k # "JSIGHT"     \* the very first directive, a MACRO definition included
+                 THEN [C5b EXCEPT !.res = "err", !.err = [cls |-> "jsightfirst", node |-> -T.nodes[Kids(T, 0)[1]].tok, where |-> "kw"]]
+                 ELSE IF C5b.res = "ok" /\ X.nodes # <<>> /\ X.nodes[Kids(X, 0)[1]].k # "JSIGHT"
+                 THEN CErr(C5b, "jsightfirst", Kids(X, 0)[1], "kw")
+                 ELSE C5b
            C7 == AddFrom(C6, X, 1)
            C8 == Pieces(C7, X, 1)
        IN Validate(C8)
@@ -474,7 +482,8 @@ Skeleton(C) ==
   [jsight |-> C.jsight,
    info |-> IF C.info = <<>> THEN <<>> ELSE <<[title |-> C.info[1].title, version |-> C.info[1].version, description |-> C.info[1].description]>>,
    servers |-> C.servers,
-   tags |-> C.tags,
+   tags |-> [i \in 1..Len(C.tags) |-> [name |-> C.tags[i].name, title |-> C.tags[i].title, description |-> C.tags[i].description,
+                                        http |-> C.tags[i].http, rpc |-> C.tags[i].rpc]],
    types |-> [i \in 1..Len(C.types) |-> [name |-> C.types[i].name, annotation |-> C.types[i].annotation, schema |-> SchJ(C.types[i].schema)]],
    enums |-> C.enums,
    inters |-> [i \in 1..Len(C.inters) |->
